@@ -7,6 +7,7 @@ import Driver.VAuth
 import Driver.Erc20
 import Driver.Cpc
 import Driver.Genesis
+import Driver.BinSearch
 
 def main (args : List String) : IO UInt32 := do
   let stdin ← IO.getStdin
@@ -21,4 +22,5 @@ def main (args : List String) : IO UInt32 := do
   | ["calltree"] => Driver.loop stdin stdout Driver.Erc20.step Driver.Erc20.init; return 0
   | ["cpc"] => Driver.loop stdin stdout Driver.Cpc.step Evermint.Cpc.empty; return 0
   | ["genesis"] => Driver.loop stdin stdout Driver.Genesis.step (); return 0
+  | ["binsearch"] => Driver.loop stdin stdout Driver.BinSearch.step (); return 0
   | _ => IO.eprintln "usage: driver <engine>"; return 2
